@@ -171,12 +171,20 @@ CHECKS = {
         "assumptions": CONC_ASSUME,
     },
     "C11": {
+        "claim": {'text': 'bounded model checking of the real environment source (alias, flatten, tag-reformat, tag-copy, string-cast manglers, structtag, caseconversion, parse): every subset of the 12 variables of a config type with nested, pointer, embedded, tagged, dialsenv-named, slice and duration leaves, integer values symbolic over all of int64/uint64: a leaf is set exactly when its documented variable is present, with the parsed value, decoy names are never read, out-of-range values are errors, and a second Value call forgets removed variables', 'note': 'os.LookupEnv is an intrinsic reading the harness table (natively os.Setenv); expected variable names are written by hand from the documented rule (embedded structs contribute no name component)', 'design_ref': 'DESIGN.md §4 C11'},
+        "bounds": {'quick': '1 type, 12 variables, all subsets, no prefix', 'thorough': 'plus prefix APP'},
+        "outside": 'other types; quoting-heavy string values (C15 covers the parsers)',
+        "assumptions": REFLECT_ASSUME,
         "runs": [
             {"entry": M + "/sources/env.HarnessC11NoPrefix", "pkgs": ENVP, "must_reach": ["c11-end", "c11-error"]},
             {"entry": M + "/sources/env.HarnessC11Prefix", "pkgs": ENVP, "must_reach": ["c11-end", "c11-error"], "tiers": ["thorough"]},
         ],
     },
     "C12": {
+        "claim": {'text': "bounded model checking of the real standard-library flag source with the real flag package interpreted from source: advertised defaults equal the template's (symbolic) values, exactly the flags on the command line set their leaves (every subset of 8 scalar flags, every value, every template default), out-of-range values are errors, repeated slice/map flags accumulate, float32 overflow is an error", 'note': 'standard-library half only: the pflag source (spf13/pflag, encoding/csv) is outside; flag usage printing is stubbed; float flags use concrete probes', 'design_ref': 'DESIGN.md §4 C12'},
+        "bounds": {'quick': 'scalar flags: all subsets x all values; collection flags: absent/once/twice', 'thorough': 'full product of both'},
+        "outside": 'pflag; custom NameConfig; time/complex/text-unmarshaler flags',
+        "assumptions": REFLECT_ASSUME,
         "runs": [
             {"entry": M + "/sources/flag.HarnessC12Scalars", "pkgs": FLAGP, "must_reach": ["c12-end", "c12-error"]},
             {"entry": M + "/sources/flag.HarnessC12Collections", "pkgs": FLAGP, "must_reach": ["c12-end", "c12-error"]},
@@ -184,12 +192,20 @@ CHECKS = {
         ],
     },
     "C18": {
+        "claim": {'text': 'bounded model checking of the real ez entry point with the real Blank, environment source, transforming decoder and dials core under all interleavings: config path from default/env/flag/none, leaf A from every subset of {file, env, flag}, leaf B from {file, flag}, invalid-by-file / invalid-by-flag / valid-only-with-file, failing file source, watch on/off: first view = defaults<file<env<flags, Verify only ever sees the fully stacked config, its failure is the returned error, Events and global callbacks stay silent, a later file change re-stacks under the same precedence', 'note': 'ez.fileSource is stubbed symbolically by a source that hands the real (alias/set-slice wrapped) decoder chain an empty reader; natively the real file source reads a temp file; params.FlagSource is a harness source (the real flag source is C12); the harness decoder ignores the bytes', 'design_ref': 'DESIGN.md §4 C18'},
+        "bounds": {'quick': '2 leaves, 4 path sources, 3 validity modes, file error, watch and no-watch; all schedules', 'thorough': 'same'},
+        "outside": 'the four real file formats (C13); real flag parsing inside ez',
+        "assumptions": CONC_ASSUME,
         "runs": [
             {"entry": M + "/ez.HarnessC18NoWatch", "pkgs": EZP, "must_reach": ["c18-end", "c18-verify-error", "c18-file-error"], "instrument": [M, M + "/sourcewrap", M + "/ez"], "validate": 0},
             {"entry": M + "/ez.HarnessC18Watch", "pkgs": EZP, "must_reach": ["c18-end"], "instrument": [M, M + "/sourcewrap", M + "/ez"], "validate": 0},
         ],
     },
     "C10": {
+        "claim": {'text': 'bounded model checking of the real transformer and manglers: translate, write a symbolic subset of the translated fields, reverse: set-to-slice at three depths (nil/empty/elements), flatten (every subset of 9 flattened leaves incl. nested, pointer-nested, embedded, trailing), and five mangler lists (anonymous-flatten, text-unmarshaler, alias+set-slice, and two combinations): result has exactly the original type, every original leaf holds what was written to its counterpart, everything else is unset', 'note': 'expected translated field names are written by hand in the harness; the alias, tag-copy, tag-reformat, string-cast manglers are exercised in their shipped chains by C11/C12/C14/C20; type substitution (durations for JSON/Cue) is not covered', 'design_ref': 'DESIGN.md §4 C10'},
+        "bounds": {'quick': '1 config type with 9 fields (scalars, set, nested, pointer-nested, embedded, text-unmarshalable, duration, slice); all subsets of written fields; 7 mangler lists', 'thorough': 'same'},
+        "outside": 'other config types; SingleTypeSubstitutionMangler; random sub-chains beyond the listed ones',
+        "assumptions": REFLECT_ASSUME,
         "runs": [
             {"entry": M + "/transform.HarnessC10SetSlice", "pkgs": TFP, "must_reach": ["c10-setslice-end"]},
             {"entry": M + "/transform.HarnessC10Flatten", "pkgs": TFP, "must_reach": ["c10-flatten-end"]},
@@ -197,6 +213,10 @@ CHECKS = {
         ],
     },
     "C14": {
+        "claim": {'text': 'bounded model checking of aliases through the real environment source: 5 aliased fields (top-level string, nested leaf, slice, struct-level alias on a pointer struct, dialsenv/dialsenvalias) x all four neither/primary/alias/both patterns (1024 combinations) plus an unaliased field: either name sets the field, neither leaves it unset, both is an error, bare inner names are never read', 'note': 'environment source only; the flag sources use the same AliasMangler (registration chain covered by C12 without alias tags); file decoders are outside (C13)', 'design_ref': 'DESIGN.md §4 C14'},
+        "bounds": {'quick': '1 type, 5 aliased fields at depth 0-1, all pattern combinations', 'thorough': 'same'},
+        "outside": 'flag/pflag sources with alias tags; alias-wrapped file decoders; the both-names error text is checked natively only',
+        "assumptions": REFLECT_ASSUME,
         "runs": [
             {"entry": M + "/sources/env.HarnessC14Env", "pkgs": ENVP + ["sort"], "must_reach": ["c14-end", "c14-both-error"]},
         ],
